@@ -88,14 +88,24 @@ def writeDiscreteLookup (u : Option String) (d : DiscreteLookup) : LoadM XmlNode
 def showCoef (t : PolyTerm) : LoadM String :=
   if t.isInt && t.coef.den == 1 then .ok (toString t.coef.num) else showFloat (.fin t.coef)
 
+/-- `str(i)` for an int. -/
+def showInt (i : Int) : String := toString i
+
+def writeSplinePoint (u : Option String) (p : SplinePoint) : LoadM XmlNode := do
+  let r ← showFloat (.fin p.raw)
+  let c ← showFloat (.fin p.cal)
+  pure (mkEl u "SplinePoint" [("raw", r), ("calibrated", c)] [])
+
+def writeTerm (u : Option String) (t : PolyTerm) : LoadM XmlNode := do
+  let c ← showCoef t
+  pure (mkEl u "Term" [("exponent", showInt t.exp), ("coefficient", c)] [])
+
 def writeCalibrator (u : Option String) : Calibrator → LoadM XmlNode
   | .spline s => do
-    let pts ← s.points.mapM (fun p => do
-      pure (mkEl u "SplinePoint" [("raw", ← showFloat (.fin p.raw)), ("calibrated", ← showFloat (.fin p.cal))] []))
-    pure (mkEl u "SplineCalibrator" [("order", toString s.order), ("extrapolate", pyBool s.extrapolate)] pts)
+    let pts ← s.points.mapM (writeSplinePoint u)
+    pure (mkEl u "SplineCalibrator" [("order", showInt s.order), ("extrapolate", pyBool s.extrapolate)] pts)
   | .poly ts => do
-    let terms ← ts.mapM (fun t => do
-      pure (mkEl u "Term" [("exponent", toString t.exp), ("coefficient", ← showCoef t)] []))
+    let terms ← ts.mapM (writeTerm u)
     pure (mkEl u "PolynomialCalibrator" [] terms)
 
 def writeContextCalibrator (u : Option String) (c : ContextCalibrator) : LoadM XmlNode := do
@@ -107,7 +117,7 @@ def writeContextCalibrator (u : Option String) (c : ContextCalibrator) : LoadM X
   pure (mkEl u "ContextCalibrator" [] [cm, mkEl u "Calibrator" [] [← writeCalibrator u c.calibrator]])
 
 def writeLinAdj (u : Option String) (a : LinAdj) : XmlNode :=
-  mkEl u "LinearAdjustment" [("intercept", toString a.intercept), ("slope", toString a.slope)] []
+  mkEl u "LinearAdjustment" [("intercept", showInt a.intercept), ("slope", showInt a.slope)] []
 
 def writeParamInstanceRef (u : Option String) (ref : String) (useCal : Bool) : XmlNode :=
   mkEl u "ParameterInstanceRef" [("parameterRef", ref), ("useCalibratedValue", pyBool useCal)] []
